@@ -214,7 +214,7 @@ def record_epoch_df(df, sig_len, L, lab=0):
     return {'op': 'epoch_df', 'flat': project_rows(df), 'sigLen': int(sig_len), 'L': int(L), 'out': out, 'relabel': 'flat', 'opts': [], 'raised': raised}
 
 
-def record_epochs2d(case, L, per_epoch, rng, layout=0):
+def record_epochs2d(case, L, per_epoch, rng, layout=0, same_object=False):
     """compute_features_2d(axis=None) on the signal reshaped into epochs of length L, vs the analysis of the flattened signal."""
     from bycycle.features import compute_features
     from bycycle.group import compute_features_2d
@@ -243,7 +243,13 @@ def record_epochs2d(case, L, per_epoch, rng, layout=0):
             oe['threshold_kwargs'] = th
             if e % 3 == 2 and method == 'cycles':
                 del oe['threshold_kwargs']          # this epoch leaves the thresholds out: the library defaults apply to it, whatever its neighbours use
+            if e % 6 == 5 and method == 'cycles':
+                oe['threshold_kwargs'] = None       # ... or writes the documented default out: None (the library defaults apply as well)
             kw.append(oe)
+        if same_object:
+            # the idiom  [options] * n_epochs : ONE dictionary object at every position of the list - every epoch is re-labelled with these thresholds
+            one = kw[1 % n_ep] if kw[1 % n_ep].get('threshold_kwargs') else kw[0]
+            kw = [one] * n_ep
     else:
         kw = copy.deepcopy(o)
     raised, out, flat, opts = '', [], [], []
@@ -271,7 +277,7 @@ def record_epochs2d(case, L, per_epoch, rng, layout=0):
                 d = d.copy()
                 d['rowid'] = [by_next.get(int(v) + e * L, 0) for v in d[nxt_col].values] if len(d) else []
                 if per_epoch:
-                    thr_e = kw[e].get('threshold_kwargs', {k_: v_ for k_, v_ in record.DEFAULT_THR.items() if k_ != 'burst_fraction_threshold'})
+                    thr_e = kw[e].get('threshold_kwargs') or {k_: v_ for k_, v_ in record.DEFAULT_THR.items() if k_ != 'burst_fraction_threshold'}
                     rows, tc = project_rows(d, with_codes=(method, thr_e))
                     if not rows:
                         rows = []
